@@ -1,4 +1,5 @@
 import GaleneVerif.Model.Locks
+import GaleneVerif.Model.ChanUse
 import GaleneVerif.Engine.Common
 /-
 Engine `locks`: the regenerated lock facts of /repo (harness/cmd/locks) as ops.
@@ -6,7 +7,9 @@ The model side recomputes the verdicts from the fact lines alone (cyclic compone
 the lock-order graph; guarded fields an entry point reaches without the guard) and
 compares them with the extractor's; the oracle turns a cycle / an unguarded access /
 an `unknown` / an unlocked packetcache method into a C13 (C05) violation whose
-message carries the witness.
+message carries the witness.  `chanuse` lines are the use sites of unbounded.Channel
+(Model/ChanUse.lean): one that leaves the receive-then-Get discipline, a channel with two
+consumers, or one that is Put to and never consumed, is a C13 violation naming the site.
 -/
 namespace Galene.Engine.Locks
 open Galene Galene.Engine Galene.Locks
@@ -78,6 +81,38 @@ def step (st : St) (op impl : List String) : St × Verdict :=
     match impl with
     | ["1"] => (st, .ok)
     | _ => (st, .oracle s!"C05: {name} does not hold Cache.mu around every access to the cache (result {" ".intercalate impl})")
+  | ["chanuse", pos, fn, _, kind, _, what] =>
+    if impl = ["0"] then (st, .ok) else if impl ≠ ["1"] then (st, .badop "chanuse result") else
+    match ChanUse.Kind.ofString? kind with
+    | none => (st, .badop "chanuse kind")
+    | some .other =>
+      (st, .oracle (s!"C13: use of an unbounded.Channel at {pos} in {fn} does not follow the receive-then-Get " ++
+        s!"discipline that the no-lost-wakeup proof assumes: {what.replace "_" " "}"))
+    | some _ => (st, .ok)
+  | ["chanconsumers", ch, recvs, puts] =>
+    -- self-contained (a shrunk case must not lose a consumer): the receive-then-Get sites and the Put sites of
+    -- channel `ch`, as `pos@fn` lists; the harness answers `stale` if they are not those of the current tree
+    let c := (listOf recvs).length
+    let p := (listOf puts).length
+    if impl = ["stale"] then (st, .ok) else
+    match cmp s!"{c} {p}" impl with
+    | .ok =>
+      if c > 1 then
+        (st, .oracle (s!"C13: {c} loops consume the unbounded.Channel {ch} ({recvs}): the no-lost-wakeup proof is " ++
+          "about ONE consumer (a second one can take the trigger or the queue from under the first)"))
+      else if c == 0 && p > 0 then
+        (st, .oracle (s!"C13: actions are Put on the unbounded.Channel {ch} ({puts}) but no use site receives from its " ++
+          "trigger channel and then Gets them (uses that leave the discipline are reported separately)"))
+      else (st, .ok)
+    | v => (st, v)
+  | ["chanimpl", pos, fn, _, kind, _, what] =>
+    if impl = ["0"] then (st, .ok) else if impl ≠ ["1"] then (st, .badop "chanimpl result") else
+    match ChanUse.Kind.ofString? kind with
+    | none => (st, .badop "chanimpl kind")
+    | some .other =>
+      (st, .oracle (s!"C13: unbounded.Channel itself uses its trigger channel at {pos} in {fn} in a way the model of " ++
+        s!"Put/Get (Model/Unbounded.lean) does not cover: {what.replace "_" " "}"))
+    | some _ => (st, .ok)
   | ["count", _] => (st, .ok)
   | _ => (st, .badop "unknown op")
 
